@@ -4,10 +4,10 @@ From Compio.Thm Require Import TaskThm.
 Local Open Scope nat_scope.
 Local Opaque Nat.ltb Nat.eqb Nat.leb.
 
-Lemma sched_pres_5 s l s' : part l = 5 -> Gsched s -> step fixed s l = Some s' -> Gsched s'.
+Lemma pend_pres_8 s l s' : part l = 8 -> Grc s -> Gres s -> Gslot s -> Gpend s -> step fixed s l = Some s' -> Gpend s'.
 Proof.
-  intros Hp. intros HI Hs. pres_start_part s l Hs Hp.
-  all: destruct HI; constructor; cbn in *.
+  intros Hp. intros HR HS HL HI Hs. pres_start_part s l Hs Hp.
+  all: destruct HR; destruct HS; destruct HL; destruct HI; constructor; unf; cbn in *.
   all: try assumption.
   all: fin2.
 Qed.
